@@ -148,7 +148,7 @@ def generate(ctx):
     rng = ctx.rng; maxL = ctx.n(40, 300)
     for _ in range(ctx.n(120, 1500)):
         L, dr, kd = gen_domain(rng, 24)
-        rows = [[k, round(rng.uniform(0, 30), 6)] for k in kd]
+        rows = [[k, round(rng.choice([rng.uniform(0, 30), rng.uniform(-0.5, 0.5), rng.uniform(-30, 30), 0.0, 10 ** rng.uniform(-12, -6)]), 12)] for k in kd]
         grids = [kd]
         for _ in range(rng.randint(1, 4)):
             rel = rng.choice(['equal', 'rescaled', 'rescaled', 'shifted', 'perturbed', 'truncated', 'extended'])
@@ -166,16 +166,16 @@ def generate(ctx):
             ks = relate(rng, kd, rel) if kind == 'array' else None
             nval = len(ks) if ks is not None else (L if rel in ('equal', 'shifted', 'rescaled', 'perturbed') else len(relate(rng, kd, rel)))
             if rng.random() < 0.1: nval = max(1, nval + rng.choice([-1, 1]))
-            case = {'kd': kd, 'k': ks, 'value': [round(rng.uniform(0, 30), 6) for _ in range(nval)], 'rel': rel}
+            case = {'kd': kd, 'k': ks, 'value': [round(rng.choice([rng.uniform(0, 30), rng.uniform(-0.5, 0.5), rng.uniform(-30, 30), 0.0, 10 ** rng.uniform(-12, -6)]), 12) for _ in range(nval)], 'rel': rel}
             ctx.case('array', case, rel != 'equal', tags=['kind:' + kind, 'rel:' + rel, 'L<=%d' % (8 * ((L + 7) // 8))])
             suite_array(ctx, case)
         else:
             ks = relate(rng, kd, rel)
             if not ks: ks = [kd[0]]
             if kind == 'file2':
-                rows = [[k, round(rng.uniform(0, 30), 6)] for k in ks]
+                rows = [[k, round(rng.choice([rng.uniform(0, 30), rng.uniform(-0.5, 0.5), rng.uniform(-30, 30), 0.0, 10 ** rng.uniform(-12, -6)]), 12)] for k in ks]
             else:
-                rows = [[round(rng.uniform(0, 30), 6)] for _ in ks]
+                rows = [[round(rng.choice([rng.uniform(0, 30), rng.uniform(-0.5, 0.5), rng.uniform(-30, 30), 0.0, 10 ** rng.uniform(-12, -6)]), 12)] for _ in ks]
             case = {'kd': kd, 'rows': rows, 'rel': rel, 'dom': [L, dr]}
             ctx.case('file', case, rel != 'equal' or len(rows) == 1, tags=['kind:' + kind, 'rel:' + rel, 'rows=1' if len(rows) == 1 else 'rows>1'])
             suite_file(ctx, case)
